@@ -32,6 +32,7 @@ TEMPLATES = {
     "N21": ["J", "J", ["J"]],
     "N22": ["J", "J", ["J", "J"]],
     "N13": ["J", ["J", "J", "J"]],
+    "S12": [["J", "J"], "J"],
     "NN": [["J", "J"], ["J", "J"]],
     "N1N": ["J", ["J"], ["J"]],
     "D3": ["J", ["J", ["J"]]],
@@ -182,7 +183,7 @@ def _make_body(run, node):
         except asyncio.CancelledError:
             run.log("cancel", name)
             lat = p["lat"]
-            if not (isinstance(lat, int) and lat == 0):
+            if p.get("lat_await", not (isinstance(lat, int) and lat == 0)):
                 try:
                     await asyncio.sleep(lat)
                 except asyncio.CancelledError:
@@ -207,7 +208,7 @@ def _make_sd(run, node):
             sdd = p["sd"]
             if p.get("sd_never"):
                 await run.loop.create_future()
-            elif not (isinstance(sdd, int) and sdd == 0):
+            elif p.get("sd_await", not (isinstance(sdd, int) and sdd == 0)):
                 await asyncio.sleep(sdd)
         except asyncio.CancelledError:
             run.log("sd_cancel", name)
@@ -402,6 +403,10 @@ def _draw(api, prof, run, top):
         p["lat"] = _param(api, prof.lat, "lat_" + n, "int")
         p["sd"] = _param(api, prof.sd, "sd_" + n, "int")
         p["sd_never"] = _param(api, prof.sd_never, "sdn_" + n, "bool")
+        # a free latency / handler duration always goes through asyncio.sleep(), also when its value is 0 (one
+        # zero-time yield): the same code runs under the explorer and on replay
+        p["lat_await"] = prof.lat == "free"
+        p["sd_await"] = prof.sd == "free"
         ylds = prof.yield_jobs is None or node.name in prof.yield_jobs
         p["pre"] = api.choice("pre_" + n, prof.pre + 1) if prof.pre and ylds else 0
         p["post"] = api.choice("post_" + n, prof.post + 1) if prof.post and ylds else 0
@@ -461,6 +466,10 @@ def _draw(api, prof, run, top):
                     on = node.children.index(b) == i + 1
                 elif prof.edges == "fanin":
                     on = b is node.children[-1]
+                elif prof.edges == "fanout":
+                    on = i == 0
+                elif prof.edges == "firstlast":
+                    on = i == 0 and b is node.children[-1]
                 elif prof.edges == "fanin2":
                     on = i < 2 and node.children.index(b) >= 2
                 else:
